@@ -197,8 +197,16 @@ impl C09 {
             out.verdict = Verdict::Fail { sig: format!("C09|straddle|{}", p.signature()), msg: format!("{} crashed: {}", what, res.short()) };
             return out;
         }
+        // what this property decides: a byte of the access falls into an area that lacks the needed
+        // permission ⇒ refused, nothing changes. Whether an access may span two adjacent areas at all when
+        // both grant it is C08's statement ("runs past the end of its area … fails"), not this one's.
+        let need = if kind == 4 { 3 } else { 2 };
+        let both_permit = c.mask & need == need && nmask & need == need;
+        if both_permit {
+            return CaseOut::pass(true, hash_json(c)).class("kind:straddle").class("straddle:both-areas-permit (C08 decides)");
+        }
         if res.is_ok() {
-            out.verdict = Verdict::Fail { sig: "C09|straddle|access-across-two-areas-succeeded".into(), msg: format!("{} succeeded", what) };
+            out.verdict = Verdict::Fail { sig: "C09|straddle|access-into-area-without-permission-succeeded".into(), msg: format!("{} succeeded", what) };
             return out;
         }
         let after = ax.verif_areas();
